@@ -43,6 +43,8 @@ def _read_markers(d):
 
 def spec_of(scenario, nonce):
     spec = {"factory": [], "game": {}, "killplay": {}, "killinit": [], "slow": scenario.get("slow", 0.0), "nonce": nonce}
+    if scenario.get("pause"):
+        spec["compress"] = scenario.get("compress", 1)
     for f in scenario["faults"]:
         t = f.split(":")
         if t[0] == "factory":
@@ -222,6 +224,10 @@ def run_play_many(scenario, d, factory, res):
     prev_return = None
     t_call = t_engine
     for r, n in enumerate(scenario["requests"], start=1):
+        if r > 1 and scenario.get("pause"):
+            # the engine sits idle between two requests (a training step between rollout batches);
+            # the workers' timed waits run `compress` times faster, so for them this is minutes
+            time.sleep(float(scenario["pause"]))
         # worker j SIGKILLed while idle, before this request starts
         for f in scenario["faults"]:
             t = f.split(":")
